@@ -39,16 +39,22 @@ type Tag struct {
 	Prio   int    `json:"prio"`
 	Acc    string `json:"acc"`            // "" or "String()"
 	Bare   bool   `json:"bare,omitempty"` // written as `gsort:"Sorter"` (priority defaults to 0)
+	Raw    string `json:"raw,omitempty"`  // option text as written when it is not the canonical rendering (e.g. "S,+07")
 }
 
 // Field is one struct field with the values the farm uses for it.
 type Field struct {
 	Name   string   `json:"name"`
 	GoType string   `json:"gotype"`
-	Kind   string   `json:"kind"` // string|int|uint|float|bool|named|plain(untagged)
+	Kind   string   `json:"kind"`             // string|int|uint|float|bool|named|plain(untagged)
 	Values []string `json:"values,omitempty"` // Go expressions of type GoType
 	Ranks  []int64  `json:"ranks,omitempty"`  // order-preserving rank of each value as the key reads it; bool: 0/1
 	Tags   []Tag    `json:"tags,omitempty"`
+	// further struct-tag pairs of the field: malformed gsort options (not part of the intended
+	// definition; generation must fail) and an unrelated json key placed before gsort tag #JSONAt
+	BadTags []string `json:"bad_tags,omitempty"`
+	JSONTag string   `json:"json_tag,omitempty"`
+	JSONAt  int      `json:"json_at,omitempty"`
 	// named kind: underlying type and String() table
 	Under   string   `json:"under,omitempty"`
 	Strings []string `json:"strings,omitempty"`
@@ -56,10 +62,11 @@ type Field struct {
 
 // Def is one struct definition = one package of the farm.
 type Def struct {
-	Kind   string  `json:"kind"`
-	Pkg    string  `json:"pkg"`
-	Type   string  `json:"type"`
-	Fields []Field `json:"fields"`
+	Malformed bool    `json:"malformed,omitempty"` // some gsort tag is not well-formed
+	Kind      string  `json:"kind"`
+	Pkg       string  `json:"pkg"`
+	Type      string  `json:"type"`
+	Fields    []Field `json:"fields"`
 }
 
 func (d *Def) sorters() []string {
@@ -302,7 +309,36 @@ func randomDef(r *rand.Rand, n int, nearmiss bool) Def {
 	}
 	if nearmiss {
 		d.Kind = "nearmiss"
-		switch r.IntN(3) {
+		switch r.IntN(6) {
+		case 3:
+			// inside the quantifier: a priority written the way strconv.Atoi also accepts it
+			// (explicit plus sign, leading zeros)
+			i := r.IntN(nf)
+			t := &d.Fields[i].Tags[r.IntN(len(d.Fields[i].Tags))]
+			num := strconv.Itoa(t.Prio)
+			switch {
+			case t.Prio < 0:
+				num = "-00" + num[1:]
+			case r.IntN(2) == 0:
+				num = "+" + num
+			default:
+				num = "0" + num
+			}
+			t.Bare = false
+			t.Raw = t.Sorter + "," + num
+			if t.Acc != "" {
+				t.Raw += "," + t.Acc
+			}
+			d.Kind = "nearmiss-odd-int"
+		case 4, 5:
+			// outside the quantifier: a malformed tag; generation must fail; model only
+			i := r.IntN(nf)
+			name := d.Fields[i].Tags[0].Sorter
+			bad := []string{name + ",1,String(),x", name + ",one", name + ",", name + ",-", name + ",1 ", name + ", 2",
+				name + ",1.5", name + ",0x10", name + ",1_0", name + ",,String()"}
+			d.Fields[i].BadTags = []string{bad[r.IntN(len(bad))]}
+			d.Kind = "out-of-domain-bad-tag"
+			d.Malformed = true
 		case 0, 1:
 			// inside the quantifier: the same field tagged twice for one sorter with two
 			// different priorities (the second occurrence is a redundant key)
@@ -331,6 +367,13 @@ func randomDef(r *rand.Rand, n int, nearmiss bool) Def {
 				d.Fields[j].Tags = append(d.Fields[j].Tags, t2)
 			}
 			d.Kind = "out-of-domain-dup-priority"
+		}
+	}
+	// an unrelated key in the struct tag of some fields, before, between or after the gsort keys
+	for i := range d.Fields {
+		if len(d.Fields[i].Tags) > 0 && r.IntN(3) == 0 {
+			d.Fields[i].JSONTag = strings.ToLower(d.Fields[i].Name) + ",omitempty"
+			d.Fields[i].JSONAt = r.IntN(len(d.Fields[i].Tags) + 1)
 		}
 	}
 	// an untagged field in between, sometimes
@@ -376,7 +419,11 @@ func corpusDefs() []Def {
 
 // ---------------------------------------------------------------- source rendering
 
-func tagText(t Tag) string {
+// optionText is what is written between the quotes of a gsort tag.
+func optionText(t Tag) string {
+	if t.Raw != "" {
+		return t.Raw
+	}
 	s := t.Sorter
 	if !t.Bare {
 		s += "," + strconv.Itoa(t.Prio)
@@ -384,7 +431,25 @@ func tagText(t Tag) string {
 			s += "," + t.Acc
 		}
 	}
-	return `gsort:"` + s + `"`
+	return s
+}
+
+// pairs lists the key/value pairs of the field's struct tag in source order.
+func pairs(f Field) [][2]string {
+	var out [][2]string
+	for i, t := range f.Tags {
+		if f.JSONTag != "" && f.JSONAt == i {
+			out = append(out, [2]string{"json", f.JSONTag})
+		}
+		out = append(out, [2]string{"gsort", optionText(t)})
+	}
+	for _, b := range f.BadTags {
+		out = append(out, [2]string{"gsort", b})
+	}
+	if f.JSONTag != "" && f.JSONAt >= len(f.Tags) {
+		out = append(out, [2]string{"json", f.JSONTag})
+	}
+	return out
 }
 
 func defSource(d *Def) string {
@@ -403,10 +468,10 @@ func defSource(d *Def) string {
 	fmt.Fprintf(&b, "// %s is a farm definition.\ntype %s struct {\n", d.Type, d.Type)
 	for _, f := range d.Fields {
 		fmt.Fprintf(&b, "\t%s %s", f.Name, f.GoType)
-		if len(f.Tags) > 0 {
-			parts := make([]string, len(f.Tags))
-			for i, t := range f.Tags {
-				parts[i] = tagText(t)
+		if ps := pairs(f); len(ps) > 0 {
+			parts := make([]string, len(ps))
+			for i, p := range ps {
+				parts[i] = p[0] + `:"` + p[1] + `"`
 			}
 			fmt.Fprintf(&b, " `%s`", strings.Join(parts, " "))
 		}
@@ -857,6 +922,12 @@ func galField(f Field) string {
 		"; fd_tags := " + gal.ListOf(f.Tags, galTag) + " |}"
 }
 
+// galRaw: the field as the parser sees it (struct tag as key/value pairs in source order).
+func galRaw(f Field) string {
+	return "{| rf_name := " + gal.Str(f.Name) + "; rf_isbool := " + gal.Bool(f.GoType == "bool") +
+		"; rf_tag := " + gal.ListOf(pairs(f), func(p [2]string) string { return gal.Pair(gal.Str(p[0]), gal.Str(p[1])) }) + " |}"
+}
+
 func tuplesOf(radix []int) [][]int {
 	nv := 1
 	for _, r := range radix {
@@ -939,6 +1010,8 @@ func emitCases(out *gal.Out, defs []Def, gens []genResult, res map[string]farmRe
 			}
 			g := "{| gc_type := " + gal.Str(d.Type) +
 				"; gc_fields := " + gal.ListOf(d.Fields, galField) +
+				"; gc_raw := " + gal.ListOf(d.Fields, galRaw) +
+				"; gc_wellformed := " + gal.Bool(!d.Malformed) +
 				"; gc_sorter := " + gal.Str(s) +
 				"; gc_gen_ok := " + gal.Bool(jc.GenOK) +
 				"; gc_text := " + gal.ListOf(jc.Text, gal.Str) +
